@@ -179,6 +179,30 @@ func c04Outcome(entry, text string, params map[string]interface{}, setParams boo
 				panic(r)
 			}
 		}()
+		// the package-level helpers that take the text as a string are entry points of their own
+		switch entry {
+		case "query_s":
+			var q *influxql.Query
+			q, err = influxql.ParseQuery(text)
+			if q != nil {
+				node = q
+			}
+			return
+		case "stmt_s":
+			var s influxql.Statement
+			s, err = influxql.ParseStatement(text)
+			if s != nil && !isNilPtr(s) {
+				node = s
+			}
+			return
+		case "expr_s":
+			var e influxql.Expr
+			e, err = influxql.ParseExpr(text)
+			if e != nil && !isNilPtr(e) {
+				node = e
+			}
+			return
+		}
 		ps := influxql.NewParser(strings.NewReader(text))
 		if setParams {
 			ps.SetParams(params)
@@ -281,6 +305,11 @@ func init() {
 		params, set := c04Binding(str(c["bind"]))
 		for _, ent := range []string{"query", "stmt", "expr"} {
 			o[ent] = c04Outcome(ent, text, params, set, 64, true)
+		}
+		if !set {
+			for _, ent := range []string{"query_s", "stmt_s", "expr_s"} {
+				o[ent] = c04Outcome(ent, text, nil, false, 64, false)
+			}
 		}
 		return o
 	}})
